@@ -316,6 +316,7 @@ func (n *RootNode) Remove(ctx context.Context, req *fuse.RemoveRequest) (err err
 
 // ForgetNode removes the node from the node map.
 func (n *RootNode) ForgetNode(node fs.Node) {
+	verifBeforeForgetNode(node)
 	n.mu.Lock()
 	defer n.mu.Unlock()
 	for k, v := range n.nodes {
